@@ -73,12 +73,6 @@ def steady_state_transport_solver(
         2D or 3D field of kinematic flux at levels or footprint.
     """
 
-    # Check cache for footprint mode
-    if cache is not None and footprint:
-        cached = cache.get(z, profiles, domain, modes, meas_pt, halo, precision)
-        if cached is not None:
-            return cached
-
     q0 = srf_flx
     p000 = srf_bg_conc
     u, v, Kx, Ky, Kz = profiles
@@ -107,6 +101,21 @@ def steady_state_transport_solver(
     # halo to deal with periodicity of FFT
     if halo is None:
         halo = max(xmx, ymx)
+
+    # Check cache for footprint mode (after the halo default is resolved, so
+    # that lookup and store use the same key)
+    if cache is not None and footprint:
+        cache_extra = (
+            np.asarray(levels).tolist(),
+            q0.shape,
+            bool(analytic),
+            float(srf_bg_conc),
+        )
+        cached = cache.get(
+            z, profiles, domain, modes, meas_pt, halo, precision, extra=cache_extra
+        )
+        if cached is not None:
+            return cached
 
     # pad width
     px = int(halo / dx)
@@ -310,7 +319,17 @@ def steady_state_transport_solver(
 
     # Store to cache for footprint mode
     if cache is not None and footprint:
-        cache.put(z, profiles, domain, modes, meas_pt, halo, precision, *result)
+        cache.put(
+            z,
+            profiles,
+            domain,
+            modes,
+            meas_pt,
+            halo,
+            precision,
+            *result,
+            extra=cache_extra,
+        )
 
     return result
 
